@@ -5,7 +5,9 @@ R1 the interval is 2^(64-m), the added half interval 2^(63-m), and modSwitchFrom
 ((p*2^32 + 2^(s-1)) mod 2^64) >> s with s = 64-m; R2 approxPhase is modSwitchToTorus32 o modSwitchFromTorus32;
 R3 modSwitchToTorus32(mu) = mu*2^(32-m), so encode-then-switch is the identity on [0,M); R4 the three functions
 use the same interval expression and unsigned 64-bit arithmetic.
-Not decided: non-power-of-two Msize (needs a solver or exhaustive evaluation); the double<->torus conversions.
+R5 dtot32 converts frac(d)*2^32 (magnitude < 2^32) through a 64-bit integer before reducing modulo 2^32 (range rule on
+the float-to-integer conversion: periodicity modulo 1).
+Not decided: non-power-of-two Msize (needs a solver or exhaustive evaluation); rounding of the floating product itself.
 """
 from sa import affine, bits, summ, sym
 from sa.facts import Program, walk
@@ -56,6 +58,102 @@ def find_interval(t, M):
     return cands
 
 
+INT_BITS = {"int": 32, "unsigned int": 32, "long": 64, "unsigned long": 64, "long long": 64, "unsigned long long": 64,
+            "short": 16, "unsigned short": 16, "char": 8, "signed char": 8, "unsigned char": 8}
+
+
+def fbound(v, t):
+    """upper bound of |value| of a floating term (float('inf') when unbounded); the fractional part d - trunc(d) is < 1"""
+    inf = float("inf")
+    if t is None:
+        return inf
+    k = t[0]
+    if k == "float":
+        return abs(t[1])
+    if k == "int":
+        return float(abs(t[1]))
+    if k == "glob":
+        s_ = v.statics.get(t[1])
+        init = (s_ or {}).get("init") or {}
+        cv = init.get("cv", init.get("v"))
+        try:
+            return abs(float(cv))
+        except (TypeError, ValueError):
+            return inf
+    if k == "cast":
+        return fbound(v, t[2])
+    if k == "fop":
+        a, b = t[2], t[3] if len(t) > 3 else None
+        if t[1] == "-" and b is not None and b[0] == "cast" and b[2][0] == "cast" and b[2][1] in INT_BITS and b[2][2] == a:
+            return 1.0                      # d - (double)(integer)d : the fractional part, magnitude < 1
+        if t[1] == "*":
+            return fbound(v, a) * fbound(v, b)
+        if t[1] in ("+", "-"):
+            return fbound(v, a) + fbound(v, b)
+        if t[1] == "/" and b is not None:
+            db = fbound(v, b)
+            if b[0] in ("float", "int", "glob") and db not in (0.0, inf):
+                return fbound(v, a) / db
+        if t[1] == "neg":
+            return fbound(v, a)
+    return inf
+
+
+def float_to_int_casts(t):
+    """(target type, floating operand) of every conversion of a floating value to an integer type inside t"""
+    out = []
+    for st in sym.subterms(t):
+        if st[0] == "cast" and st[1] in INT_BITS:
+            x = st[2]
+            while x[0] == "cast" and x[1] in ("double", "float", "long double"):
+                x = x[2]
+            if x[0] in ("fop", "float") or (x[0] == "call" and False):
+                out.append((st[1], x))
+    return out
+
+
+def check_double_conversion(chk, v):
+    """R5: dtot32(d) = wrap32(trunc(frac(d) * 2^32)); the scaled fractional part (magnitude < 2^32) must be converted
+    through an integer type that can hold it, otherwise the conversion is undefined for |frac(d)| >= 1/2 and the function
+    stops being periodic modulo 1"""
+    vn = v.name
+    f = v.fn("dtot32")
+    val = ret_value(v, f)
+    if val is None:
+        chk.broken("dtot32: not a single closed return expression")
+    d = sym.sym(f.params[0]["n"])
+    casts = float_to_int_casts(val)
+    key = "dtot32 is periodic modulo 1: the scaled fractional part is converted through a type that holds it"
+    outer = [c for c in casts if sym.contains(c[1], d) and not (c[1][0] == "sym")]
+    # the conversion that produces the result: the outermost float->int cast
+    top = None
+    x = val
+    while x[0] == "cast" and x[1] not in INT_BITS:
+        x = x[2]
+    if x[0] == "cast" and x[1] in INT_BITS:
+        top = (x[1], x[2])
+    if top is None:
+        chk.broken("dtot32: result %s is not a float-to-integer conversion" % sym.show(val))
+    ty, operand = top
+    b = fbound(v, operand)
+    problems = []
+    scale = None
+    if operand[0] == "fop" and operand[1] == "*":
+        for a_, b_ in ((operand[2], operand[3]), (operand[3], operand[2])):
+            if fbound(v, a_) == 1.0 and a_[0] == "fop" and a_[1] == "-" and a_[2] == d:
+                scale = fbound(v, b_)
+    if scale != 4294967296.0:
+        problems.append("the converted value %s is not frac(d) * 2^32" % sym.show(operand)[:80])
+    cap = 2.0 ** (INT_BITS[ty] - (0 if ty.startswith("unsigned") else 1))
+    if not (b <= cap):
+        problems.append("a double of magnitude up to %.10g is converted directly to '%s' (range +-%.10g): undefined for |frac(d)| >= %.3g, "
+                        "e.g. dtot32(0.75) != dtot32(-0.25)" % (b, ty, cap, cap / b if b != float("inf") else 0))
+    chk.require(not problems, "R5", key, where=f.where,
+                ok="trunc(frac(d)*2^32) through '%s' (|value| < %.10g <= %.10g), then reduced modulo 2^32" % (ty, b, cap),
+                bad="; ".join(problems), variant=vn)
+    chk.vcount(vn, "R5.real_to_torus_conversions")
+
+
 def run(chk):
     prog = Program()
     chk.explanation = (
@@ -77,6 +175,7 @@ def run(chk):
                 chk.broken("%s: not a single closed return expression" % name)
             vals[name] = (f, strip(val))
             chk.vcount(vn, "R1.rounding_functions")
+        check_double_conversion(chk, v)
         # ---- modSwitchFromTorus32
         f, val = vals["modSwitchFromTorus32"]
         ph, M = sym.sym(f.params[0]["n"]), sym.sym(f.params[1]["n"])
